@@ -101,6 +101,9 @@ func (g *Generator) cookClient(typeName string) {
 					asMap := parseAlias(doc)             //userID -> id
 					reversMap := make(map[string]string) //id -> userID
 					for k, v := range asMap {
+						if other, dup := reversMap[v]; dup {
+							logx.Fatalf("%s: parameters %s and %s have the same alias %s", methodName, other, k, v)
+						}
 						reversMap[v] = k
 					}
 					g.data.AliasMap[methodName] = asMap
